@@ -9,6 +9,7 @@ import (
 	"regexp"
 	"strconv"
 	"strings"
+	"time"
 )
 
 // randomCase is one generated (program, selectors, inputs) stimulus.
@@ -373,4 +374,150 @@ func checkC01Awkward(c *Ctx) {
 		}
 		c.Case("awk:"+strings.Join(cases[i].args, " "), true)
 	})
+}
+
+// Deep nesting times deep recursion: the call depth limit bounds the number of active calls, not the
+// nesting inside each of them, and a program text of at most 64 KiB can nest tens of thousands of
+// operators, literals, blocks or loops around a recursive call. Every such run must end with a
+// reported error (or complete), never with a Go stack overflow.
+type nestForm struct {
+	name string
+	mk   func(k int) string
+	slow bool // left-deep chains are evaluated once per call: keep them small
+}
+
+var nestForms = []nestForm{
+	{"not", func(k int) string {
+		return "function f(n) { return " + strings.Repeat("!", k) + "f(n+1) }\nBEGIN { f(0) }"
+	}, false},
+	{"neg", func(k int) string {
+		return "function f(n) { return " + strings.Repeat("- ", k) + "f(n+1) }\nBEGIN { f(0) }"
+	}, false},
+	{"paren", func(k int) string {
+		return "function f(n) { return " + strings.Repeat("(", k) + "f(n+1)" + strings.Repeat(")", k) + " }\nBEGIN { f(0) }"
+	}, false},
+	{"binright", func(k int) string {
+		return "function f(n) { return " + strings.Repeat("1+(", k) + "f(n+1)" + strings.Repeat(")", k) + " }\nBEGIN { f(0) }"
+	}, false},
+	{"binleft", func(k int) string {
+		return "function f(n) { return f(n+1)" + strings.Repeat("+1", k) + " }\nBEGIN { f(0) }"
+	}, false},
+	{"array", func(k int) string {
+		return "function f(n) { return " + strings.Repeat("[", k) + "f(n+1)" + strings.Repeat("]", k) + " }\nBEGIN { f(0) }"
+	}, false},
+	{"object", func(k int) string {
+		return "function f(n) { return " + strings.Repeat("{a:", k) + "f(n+1)" + strings.Repeat("}", k) + " }\nBEGIN { f(0) }"
+	}, false},
+	{"index", func(k int) string {
+		return "function f(n) { return " + strings.Repeat("a[", k) + "f(n+1)" + strings.Repeat("]", k) + " }\nBEGIN { a = [0]; f(0) }"
+	}, false},
+	{"callarg", func(k int) string {
+		return "function g(x) { return x }\nfunction f(n) { return " + strings.Repeat("g(", k) + "f(n+1)" + strings.Repeat(")", k) + " }\nBEGIN { f(0) }"
+	}, false},
+	{"methodarg", func(k int) string {
+		return "function f(n) { return " + strings.Repeat("a.push(", k) + "f(n+1)" + strings.Repeat(")", k) + " }\nBEGIN { a = []; f(0) }"
+	}, false},
+	{"assign", func(k int) string {
+		return "function f(n) { return " + strings.Repeat("x=", k) + "f(n+1) }\nBEGIN { f(0) }"
+	}, false},
+	{"block", func(k int) string {
+		return "function f(n) { " + strings.Repeat("{", k) + " f(n+1) " + strings.Repeat("}", k) + " }\nBEGIN { f(0) }"
+	}, false},
+	{"if", func(k int) string {
+		return "function f(n) { " + strings.Repeat("if(1)", k) + " f(n+1) }\nBEGIN { f(0) }"
+	}, false},
+	{"ifelse", func(k int) string {
+		return "function f(n) { " + strings.Repeat("if(0){}else ", k) + " f(n+1) }\nBEGIN { f(0) }"
+	}, false},
+	{"while", func(k int) string {
+		return "function f(n) { " + strings.Repeat("while(1)", k) + " { f(n+1) } }\nBEGIN { f(0) }"
+	}, false},
+	{"forin", func(k int) string {
+		return "function f(n) { " + strings.Repeat("for(x in o)", k) + " { f(n+1) } }\nBEGIN { o = [1]; f(0) }"
+	}, false},
+	{"for3", func(k int) string {
+		return "function f(n) { " + strings.Repeat("for(;;)", k) + " { f(n+1) } }\nBEGIN { f(0) }"
+	}, false},
+	{"match", func(k int) string {
+		return "function f(n) { return " + strings.Repeat("match(1){_=>", k) + "f(n+1)" + strings.Repeat("}", k) + " }\nBEGIN { f(0) }"
+	}, false},
+	{"pattern", func(k int) string {
+		return "function f(n) { return " + strings.Repeat("!", k) + "f(n+1) }\nf(0) { print }"
+	}, false},
+	{"selector", func(k int) string { return "" }, false}, // placeholder: built below from "not" as a -r selector
+	{"member", func(k int) string {
+		return "function f(n) { return o" + strings.Repeat(".a", k) + "[f(n+1)] }\nBEGIN { o = {}; f(0) }"
+	}, true},
+	{"and", func(k int) string {
+		return "function f(n) { return " + strings.Repeat("1&&", k) + "f(n+1) }\nBEGIN { f(0) }"
+	}, true},
+	{"concat", func(k int) string {
+		return "function f(n) { return " + strings.Repeat("1 ", k) + "f(n+1) }\nBEGIN { f(0) }"
+	}, true},
+}
+
+func checkC01DeepNesting(c *Ctx) {
+	dir := c.TempDir("deep")
+	os.WriteFile(filepath.Join(dir, "in.json"), []byte(`[1]`), 0o644)
+	type one struct {
+		name string
+		k    int
+		args []string
+	}
+	var cases []one
+	fit := func(mk func(int) string, limit int) int {
+		lo, hi := 1, 70000
+		for hi-lo > 1 {
+			m := (lo + hi) / 2
+			if len(mk(m)) <= limit {
+				lo = m
+			} else {
+				hi = m
+			}
+		}
+		return lo
+	}
+	for _, f := range nestForms {
+		if f.name == "selector" {
+			continue
+		}
+		ks := []int{fit(f.mk, 65536), fit(f.mk, 65536) / 9}
+		if f.slow {
+			ks = []int{600}
+		}
+		if c.Thorough() && !f.slow {
+			ks = append(ks, fit(f.mk, 65536)/3, 300, 60)
+		}
+		for _, k := range ks {
+			fn := filepath.Join(dir, fmt.Sprintf("%s-%d.jqawk", f.name, k))
+			os.WriteFile(fn, []byte(f.mk(k)), 0o644)
+			cases = append(cases, one{f.name, k, []string{"-f", fn, "in.json"}})
+		}
+	}
+	// the same through a root selector (evaluated by its own evaluator)
+	cases = append(cases, one{"selector", 20000, []string{"-r", strings.Repeat("!", 20000) + "$", "function f(n) { return " + strings.Repeat("!", 20000) + "f(n+1) }\n{ f(0) }", "in.json"}})
+	parallelDo(len(cases), 8, func(i int) {
+		br := c.RunBin(cases[i].args, nil, dir, 4*time.Minute)
+		if br.TimedOut {
+			c.Count("inconclusive", 1)
+			return
+		}
+		if why := binaryVerdict(br); why != "" {
+			c.Violation("deep-nesting", map[string]any{"form": cases[i].name, "nesting": cases[i].k, "args": cases[i].args[:1], "program_head": firstN(readFileOr(cases[i].args), 200),
+				"exit": br.Exit, "stderr": firstN(string(br.Stderr), 600), "why": why + " (a program of at most 64 KiB: nesting " + fmt.Sprint(cases[i].k) + " inside a recursive function)"})
+			return
+		}
+		c.Case(fmt.Sprintf("deep:%s:%d", cases[i].name, cases[i].k), br.Exit != 0)
+	})
+}
+
+func readFileOr(args []string) string {
+	if len(args) >= 2 && args[0] == "-f" {
+		b, _ := os.ReadFile(args[1])
+		return string(b)
+	}
+	if len(args) >= 3 {
+		return args[2]
+	}
+	return ""
 }
